@@ -1,6 +1,7 @@
 From Coq Require Import NArith List String Ascii Bool Lia ZArith ZifyN ZifyBool.
 From LOF Require Import Model.Registry Spec.OvsFields.
 Import ListNotations.
+Local Open Scope string_scope.
 Open Scope N_scope.
 Ltac Zify.zify_post_hook ::= Z.div_mod_to_equations.
 
